@@ -94,6 +94,7 @@ type FuncVC struct {
 	params       map[string]SVal
 	callOrd      map[string]int
 	unsup        []string
+	Stale        []string // clauses for loops or returns the function no longer has (dropped; reported as a contract problem)
 	noTerm       []string          // loops with neither a measure nor an error-exit obligation
 	skipped      []string          // ensures clauses not checked at a return because they name a local that does not exist there
 	defKeys      map[string]bool   // heap keys that carry a definedness ghost (leaves of the outs parameters)
@@ -1077,14 +1078,25 @@ func (vc *FuncVC) Generate() (err error) {
 	for k := range vc.fc.BackAsserts {
 		loopKeys[k] = true
 	}
+	// A clause for a loop or a return the function no longer has is stale: the code was restructured after the
+	// contract was written. The clause is dropped (fewer assumptions and fewer proof hints: sound) and the
+	// obligations of what is there are still generated, so that a real failure is reported by name with its
+	// replay; the stale clause itself is reported as a problem of the contract (the check does not pass).
 	for k := range loopKeys {
 		if k < 1 || k > nloops {
-			return fmt.Errorf("%s: the contract has clauses for loop %d but the function has %d loop(s)", vc.name, k, nloops)
+			vc.Stale = append(vc.Stale, fmt.Sprintf("%s: the contract has clauses for loop %d but the function has %d loop(s)", vc.name, k, nloops))
+			fc := *vc.fc
+			fc.Invs, fc.Decr, fc.ErrExit, fc.LoopHints = dropKey(fc.Invs, k), dropKey(fc.Decr, k), dropKey(fc.ErrExit, k), dropKey(fc.LoopHints, k)
+			fc.LoopLets, fc.BackHints, fc.BackAsserts = dropKey(fc.LoopLets, k), dropKey(fc.BackHints, k), dropKey(fc.BackAsserts, k)
+			vc.fc = &fc
 		}
 	}
 	for k := range vc.fc.DeadRets {
 		if k < 1 || k > len(vc.retNum) {
-			return fmt.Errorf("%s: the contract declares return %d unreachable but the function has %d return(s)", vc.name, k, len(vc.retNum))
+			vc.Stale = append(vc.Stale, fmt.Sprintf("%s: the contract declares return %d unreachable but the function has %d return(s)", vc.name, k, len(vc.retNum)))
+			fc := *vc.fc
+			fc.DeadRets = dropKey(fc.DeadRets, k)
+			vc.fc = &fc
 		}
 	}
 	for _, list := range [][]string{vc.fc.Outs, keysOf(vc.fc.Nilable)} {
@@ -1144,6 +1156,17 @@ func (vc *FuncVC) settleBigCopies() {
 	}
 	vc.obls = keep
 	vc.note("%d by-value BigInt copies accepted as read-only snapshots: the function writes no BigInt, havocs nothing, lets no pointer escape", len(vc.bigCopyObls))
+}
+
+// dropKey returns a copy of m without key k (the parsed contract is shared between runs of the generator).
+func dropKey[V any](m map[int]V, k int) map[int]V {
+	out := make(map[int]V, len(m))
+	for kk, v := range m {
+		if kk != k {
+			out[kk] = v
+		}
+	}
+	return out
 }
 
 func keysOf(m map[string]bool) []string {
